@@ -68,6 +68,21 @@ CLAIMED = {
   "Trusted: Lean kernel + standard axioms; regex fragment and datetime modelled; F-C09-ignore-vcs-tag (no uniqueness check under --ignore-vcs-tag) is a known finding; non-ASCII tags answer unsupported in the model.",
   "Lean 4 proof (maximum of a list under a total preorder) + correspondence + fake-git oracle",
   "DESIGN.md section 7, C09"),
+ "C07": (
+  "Lean 4 theorems C07_*: the regenerated escape table has the right shape and covers every regex metacharacter except the documented semantic ones (C07_table_shape, C07_table_complete — the statement that names the missing character when an entry is dropped); the sequential str.replace loop is a pointwise map for EVERY string (C07_escape_pointwise); literal pattern text (any characters but upper-case letters, bare brackets, backslash, ^, $; `\\[` `\\]` for brackets) compiles through the whole string pipeline to exactly the literal-sequence regex (C07_literal_compiles, C07_anchored), which finds exactly the lines containing the text (C07_lits_*). Tied by ops compile_str/compile_search; implementation oracle exhaustive over short literals (length 2 quick / 3 thorough) and random long ones, alone and around parts, plus `bumpver grep`.",
+  "Trusted: Lean kernel + standard axioms; translator of RE_PATTERN_ESCAPES/PART_PATTERNS; Python re on the fragment (modelled). Backslash and interior ^/$ are known findings F-C07-backslash / F-C07-anchor.",
+  "Lean 4 proof (string-surgery invariants + parser induction over a regenerated table) + exhaustive short-literal oracle",
+  "DESIGN.md section 7, C07"),
+ "C13": (
+  "Lean 4 theorems C13_*: --dry is pure (no rewrite, hook or mutating VCS event in the plan model), the dry path and the write path compute the same new lines, a clean dry run implies a successful real run that writes exactly those lines, and the model's unified-diff applier is strict and complete w.r.t. an explicit `Describes` relation (C13_apply_sound/_complete, C13_hunk_counts). PARTIAL: difflib.unified_diff is validated per instance, not proved: the text printed by the real `update --dry` is parsed and applied by the proved-strict applier and must reproduce the files of a real run with the same arguments.",
+  "Trusted: Lean kernel + standard axioms; difflib (validated per instance); consistent line endings as the property states.",
+  "Lean 4 proof (applier soundness/completeness, path equivalence) + per-instance translation validation of difflib",
+  "DESIGN.md section 7, C13"),
+ "C15": (
+  "PARTIAL. Lean 4 theorems C15_* over the regenerated tables: every part the PEP 440 conversion substitutes shows the same field unpadded, every padded part is covered, the tag tables are mutually consistent, the short tags are exactly the PEP 440 segments of C16's parser, a final tail is omitted, and the conversion of every README example pattern is the documented one (kernel-evaluated string surgery); negative witness for odd shapes. The end-to-end statement (same version, accepted by the derived pattern, equals the PEP440 line, normal form) for ALL PEP 440-shaped patterns and values is validated, not proved: ops to_pep440_pattern/normalize and an oracle with `packaging` as independent PEP 440 authority.",
+  "Trusted: Lean kernel + standard axioms; translator; the end-to-end part rests on the correspondence and the packaging-based oracle (a proof needs the pattern-level composition of C02). Patterns outside the README shapes: known finding F-C15-odd-shapes.",
+  "Lean 4 proof of the table-level facts + kernel evaluation per README pattern; end-to-end by correspondence and packaging oracle",
+  "DESIGN.md section 7, C15"),
 }
 
 PENDING_REASON = "not yet covered: model/theorems for this property are still being built (see DESIGN.md section 10 for the order of work); no check is claimed until its theorems are proved and tied to the code"
